@@ -98,3 +98,10 @@ Qed.
 
 Lemma sy_eval_is_zero (rho : var -> Z) (p : mpoly) : mp_is_zero p = true -> mp_eval rho p = 0.
 Proof. destruct p; [reflexivity | discriminate]. Qed.
+
+(* canonicalising a raw term list does not change its value (mp_eval is defined on raw lists) *)
+Lemma sy_eval_of_terms (rho : var -> Z) (l : list term) : mp_eval rho (mp_of_terms l) = mp_eval rho l.
+Proof.
+  unfold mp_of_terms. induction l as [|t l IH]; cbn [fold_right]; [reflexivity|].
+  rewrite sy_eval_add_term, IH. cbn [mp_eval fold_right]. reflexivity.
+Qed.
